@@ -84,34 +84,43 @@ def guard_table(mods):
 
 
 def unanswered_table(mods):
-    """(received requests + notifications, finished handlers, unanswered_request_count())"""
+    """(class 0 RPCSession / 1 MessageSession, received requests + notifications, handlers finished
+    normally, how the rest is ended: 0 not at all / 1 the connection is lost / 2 processing_timeout
+    fires, unanswered_request_count() afterwards)"""
     rows = []
-    Rpc, _Msg = lp.gated_classes(mods)
-    for k in (0, 1, 3, 5):
-        for j in range(0, k + 1, 2 if k > 3 else 1):
-            bench = lp.Bench()
-            try:
-                cls = type('P', (Rpc,), dict(initial_concurrent=2))
-                proto, _tr, s = bench.session(mods, cls, 'server')
-                s.probe_log, s.probe_gates = [], {}
-                for i in range(k):
-                    proto.data_received(lp.rpc_bytes(i, request=(i % 3 != 2)))
+    Rpc, Msg = lp.gated_classes(mods)
+    plan = [(0, k, j, 0) for k in (0, 1, 3, 5) for j in range(0, k + 1, 2 if k > 3 else 1)]
+    plan += [(c, k, j, how) for c in (0, 1) for how in (1, 2) for k, j in ((1, 0), (3, 1), (5, 0), (5, 2))]
+    plan += [(1, 3, 1, 0), (1, 4, 0, 0)]
+    for code, k, j, how in plan:
+        bench = lp.VBench()
+        try:
+            cls = type('P', (Rpc if code == 0 else Msg,), dict(initial_concurrent=2, processing_timeout=5.0))
+            proto, tr, s = bench.session(mods, cls, 'server')
+            s.probe_log, s.probe_gates = [], {}
+            for i in range(k):
+                proto.data_received(lp.rpc_bytes(i, request=(i % 3 != 2)) if code == 0 else lp.msg_bytes(mods, i))
+            bench.idle()
+            done = 0
+            guard = 0
+            while done < j and guard < 50:
+                guard += 1
+                starts = [key for kind, key in s.probe_log if kind == 'start']
+                ends = [key for kind, key in s.probe_log if kind == 'end']
+                running = [x for x in starts if x not in ends]
+                if not running:
+                    break
+                s.probe_gates[running[0]].set_result(None)
                 bench.idle()
-                done = 0
-                guard = 0
-                while done < j and guard < 50:
-                    guard += 1
-                    starts = [key for kind, key in s.probe_log if kind == 'start']
-                    ends = [key for kind, key in s.probe_log if kind == 'end']
-                    running = [x for x in starts if x not in ends]
-                    if not running:
-                        break
-                    s.probe_gates[running[0]].set_result(None)
-                    bench.idle()
-                    done += 1
-                rows.append((k, done, int(s.unanswered_request_count())))
-            finally:
-                bench.close()
+                done += 1
+            if how == 1:
+                tr.close()
+                bench.advance(1.0)
+            elif how == 2:
+                bench.advance(6.0)
+            rows.append((code, k, done, how, int(s.unanswered_request_count())))
+        finally:
+            bench.close()
     return rows
 
 
@@ -155,7 +164,7 @@ def render(f):
     def lst(xs):
         return '[' + ', '.join(str(x) for x in xs) + ']'
     guard = ',\n  '.join(f'({c}, {l}, {k}, {p}, {lst(o)})' for c, l, k, p, o in f['guard_rows'])
-    unans = ', '.join(f'({k}, {j}, {n})' for k, j, n in f['unanswered_rows'])
+    unans = ', '.join(f'({c}, {k}, {j}, {h}, {n})' for c, k, j, h, n in f['unanswered_rows'])
     return (
         'import Aiorpcx.C13.IntRows\n'
         '/-! GENERATED by tools/facts/c13.py by RUNNING the current tree - do not edit. -/\n'
@@ -175,7 +184,8 @@ def render(f):
         '/-- bursts through real sessions: (0 RPCSession / 1 MessageSession, initial_concurrent,\n'
         '    messages, peak handlers running at once, order in which handlers started) -/\n'
         f'def guardTable : List (Nat × Nat × Nat × Nat × List Nat) := [\n  {guard}]\n'
-        '/-- (received, finished, unanswered_request_count()) on a live RPCSession -/\n'
-        f'def unansweredTable : List (Nat × Nat × Nat) := [{unans}]\n'
+        '/-- on a live session: (0 RPCSession / 1 MessageSession, received, finished normally, how the\n'
+        '    rest was ended: 0 not / 1 connection lost / 2 processing timeout, unanswered_request_count()) -/\n'
+        f'def unansweredTable : List (Nat × Nat × Nat × Nat × Nat) := [{unans}]\n'
         f'def refusalIsRuntimeError : Bool := {"true" if f["refusal_is_runtime_error"] else "false"}\n'
         'end Aiorpcx.Facts.C13\n')
